@@ -105,7 +105,7 @@ Proof.
     cbn [read_item String.eqb Ascii.eqb Bool.eqb]. rewrite Hc. eexists. split; [reflexivity|]. cbn. apply String.eqb_refl.
   - destruct x as [b|z|f|re im]; [| destruct (sc_storable _); [|discriminate] | |]; injection Hs as <-;
       cbn [read_item String.eqb Ascii.eqb Bool.eqb]; (eexists; split; [reflexivity|]); apply sc_same_refl.
-  - destruct x as [b|z|f|re im]; [discriminate| | |]; injection Hs as <-;
+  - destruct x as [b|z|f|re im]; injection Hs as <-;
       cbn [read_item String.eqb Ascii.eqb Bool.eqb]; (eexists; split; [reflexivity|]); apply sc_same_refl.
   - destruct (h5_dtype_ok dt); [|discriminate]. injection Hs as <-. cbn [read_item String.eqb Ascii.eqb Bool.eqb].
     eexists. split; [reflexivity|]. cbn. rewrite String.eqb_refl, Z.eqb_refl, (list_eqb_refl Nat.eqb _ Nat.eqb_refl). reflexivity.
